@@ -13,7 +13,7 @@ import itertools
 from .. import nullness
 from ..cfg import ENTRY, EXIT, Assume, header_uses
 from ..core import (AnalysisIncomplete, arg_or_kw, call_name, const_value,
-                    names_loaded, params, u, walk_expr, walk_local)
+                    names_loaded, params, target_names, u, walk_expr, walk_local)
 from ..match import C, canon, classify, match
 from ..patterns import (Cmp, calls_in, conjuncts, finfo, returns_of,
                         subscript_stores)
@@ -804,7 +804,14 @@ def _d1_coldstart(ck, mod):
                 if u(dt) not in dtypes:
                     wrong = u(dt) in (('int', 'np.int64', 'bool', 'np.intp', 'np.int32') if fill == 'np.inf' else
                                       ('float', 'np.float64', 'bool', 'np.float32'))
-                    if wrong:
+                    dc = dtype_class(dt)
+                    if fill == 'np.inf' and dc == 'narrow':
+                        ck.bad(rule, mod, site, 'kcenters', u(site),
+                               'the running-minimum distance array is allocated as %s: every distance the metric returns is '
+                               'rounded to that type when it is committed, so the argmax that picks the next centre and the '
+                               'radius compared with the cutoff work on rounded values (ties / early stop for distances closer '
+                               'than its resolution); it must hold double precision (dtype float)' % u(dt))
+                    elif wrong or (fill == 'np.inf' and dc in ('int', 'bool')) or (fill == '-1' and dc in ('f64', 'narrow', 'bool')):
                         ck.bad(rule, mod, site, 'kcenters', u(site), why_bad + '; dtype %s cannot hold it' % u(dt))
                     else:
                         ck.missing(rule, 'dtype `%s` of the cold-start %s array not recognised' % (u(dt), name))
@@ -817,6 +824,171 @@ def _d1_coldstart(ck, mod):
                           'cold start: %s = %s for every frame' % (name, fill), why_bad)
         if not found:
             ck.missing(rule, 'cold-start initialisation of %s (the array handed to the iteration) before the main loop' % name)
+
+
+# ---------------------------------------------------------------------------
+# D1 (precision): the running minimum is held in the metric's precision
+
+_F64 = {'float', 'np.float64', 'np.double', 'np.float_', 'np.longdouble', 'np.float128', 'numpy.float64', 'np.longfloat'}
+_F64_STR = {'float', 'float64', 'f8', 'd', '<f8', '=f8', 'double', 'longdouble', 'float128', 'g', 'f16'}
+_NARROW = {'np.float32', 'np.float16', 'np.single', 'np.half', 'numpy.float32', 'numpy.float16', 'np.bfloat16'}
+_NARROW_STR = {'float32', 'float16', 'f4', 'f2', 'f', 'e', '<f4', '=f4', '<f2', '=f2', 'single', 'half'}
+_INT = {'int', 'np.int64', 'np.intp', 'np.int_', 'np.int32', 'np.int16', 'np.int8', 'np.uint8', 'np.uint16',
+        'np.uint32', 'np.uint64', 'np.uintp', 'np.long', 'np.longlong'}
+_INT_STR = {'int', 'int64', 'int32', 'int16', 'int8', 'i8', 'i4', 'i2', 'i1', 'u8', 'u4', 'u2', 'u1', 'uint8',
+            'uint16', 'uint32', 'uint64', 'intp', 'l', 'q', 'i'}
+
+
+def dtype_class(dt):
+    """Class of a dtype expression: 'f64' (double precision or wider float),
+    'narrow' (a float type with fewer than 53 significand bits), 'int',
+    'bool', or None (not a literal dtype the rule knows)."""
+    if dt is None:
+        return None
+    if isinstance(dt, ast.Call) and (call_name(dt) or '') in ('np.dtype', 'numpy.dtype') and len(dt.args) == 1 and not dt.keywords:
+        return dtype_class(dt.args[0])
+    if isinstance(dt, ast.Constant) and isinstance(dt.value, str):
+        s = dt.value.strip()
+        return 'f64' if s in _F64_STR else 'narrow' if s in _NARROW_STR else 'int' if s in _INT_STR else \
+            'bool' if s in ('bool', '?', 'b1') else None
+    t = u(dt)
+    return 'f64' if t in _F64 else 'narrow' if t in _NARROW else 'int' if t in _INT else \
+        'bool' if t in ('bool', 'np.bool_', 'np.bool') else None
+
+
+def narrowing_casts(root):
+    """[(call, dtype expr, operand-or-None)] for every construct under `root`
+    that produces a float value of less than double precision: `x.astype(T)`,
+    a numpy constructor / conversion with `dtype=T`, the scalar constructors
+    `np.float32(x)` ..., `x.view(T)` excluded (reinterpretation, not rounding)."""
+    out = []
+    for c in ast.walk(root):
+        if not isinstance(c, ast.Call):
+            continue
+        cn = call_name(c) or ''
+        if isinstance(c.func, ast.Attribute) and c.func.attr == 'astype' and (c.args or c.keywords):
+            dt = arg_or_kw(c, 0, 'dtype')
+            if dtype_class(dt) == 'narrow':
+                out.append((c, dt, c.func.value))
+            continue
+        if cn in _NARROW and len(c.args) == 1:
+            out.append((c, c.func, c.args[0]))
+            continue
+        for k in c.keywords:
+            if k.arg == 'dtype' and dtype_class(k.value) == 'narrow':
+                out.append((c, k.value, c.args[0] if c.args else None))
+        if cn in ('np.full', 'np.full_like') and len(c.args) >= 3 and dtype_class(c.args[2]) == 'narrow':
+            out.append((c, c.args[2], None))
+        elif cn in ('np.zeros', 'np.ones', 'np.empty', 'np.array', 'np.asarray', 'np.zeros_like', 'np.ones_like',
+                    'np.empty_like', 'np.asanyarray', 'np.ascontiguousarray') \
+                and len(c.args) >= 2 and dtype_class(c.args[1]) == 'narrow':
+            out.append((c, c.args[1], None))
+    return out
+
+
+def upstream_names(fi, seeds):
+    """Names whose values flow into the names in `seeds` inside the analysed
+    function: the backward closure over plain assignments, augmented
+    assignments and subscript stores (`n[...] = v` makes the operands of v
+    flow into n)."""
+    out = set(seeds)
+    edges = {}
+    for s in walk_local(fi.fn):
+        if isinstance(s, ast.Assign):
+            for t in s.targets:
+                for tt in (t.elts if isinstance(t, (ast.Tuple, ast.List)) else [t]):
+                    base = tt
+                    while isinstance(base, (ast.Subscript, ast.Attribute, ast.Starred)):
+                        base = base.value
+                    if isinstance(base, ast.Name):
+                        edges.setdefault(base.id, set()).update(names_loaded(s.value))
+        elif isinstance(s, (ast.AugAssign, ast.AnnAssign)) and s.value is not None:
+            base = s.target
+            while isinstance(base, (ast.Subscript, ast.Attribute)):
+                base = base.value
+            if isinstance(base, ast.Name):
+                edges.setdefault(base.id, set()).update(names_loaded(s.value))
+    work = list(out)
+    while work:
+        n = work.pop()
+        for m in edges.get(n, ()):
+            if m not in out:
+                out.add(m)
+                work.append(m)
+    return out
+
+
+def d1_precision(ck):
+    """The next centre is the argmax, and the covering radius the maximum, of
+    the running minimum of the distances the metric returned.  Both are exact
+    only if that state - the distance array, the candidate committed into it,
+    the radius variable - holds the metric's values unrounded: a conversion
+    to a float type narrower than double on the way into it merges distances
+    that differ (ties broken towards the lower index although another frame
+    is strictly farther; a radius just above the cutoff rounded onto it)."""
+    rule = 'C02.D1.precision'
+    mod = ck.repo.mod(KC)
+    n = 0
+    for q in ('kcenters',) + ITER_FUNCS:
+        fn = mod.func(q)
+        fi = finfo(mod, fn)
+        if q == 'kcenters':
+            K = kcenters_roles(ck, rule, mod)
+            if K is None:
+                continue
+            seeds = {K['D']}
+            # the radius: what the loop test / the guard clauses of the loop compare with the cutoff
+            tests = [K['loop'].test] + [a.test for a in fi.cfg.nodes if isinstance(a, Assume) and a.polarity
+                                        and _inside(mod, a.owner, K['loop'])]
+            for t in tests:
+                for cmpn in ast.walk(t):
+                    if isinstance(cmpn, ast.Compare) and K['DC'] in [ctext(x) for x in [cmpn.left] + cmpn.comparators]:
+                        seeds |= names_loaded(cmpn)
+            seeds.discard(K['DC'])
+            D = K['D']
+        else:
+            D = iteration_roles(fn)['D']
+            seeds = {D}
+        n += 1
+        flow = upstream_names(fi, seeds)
+        casts = narrowing_casts(fn)
+        for c, dt, operand in casts:
+            s = fi.stmt(c)
+            if isinstance(s, ast.Expr) and isinstance(s.value, ast.Call) and (call_name(s.value) or '').split('.')[0] in (
+                    'logger', 'logging', 'print', 'warnings'):
+                continue
+            targets = set()
+            if isinstance(s, ast.Assign):
+                for t in s.targets:
+                    for tt in (t.elts if isinstance(t, (ast.Tuple, ast.List)) else [t]):
+                        base = tt
+                        while isinstance(base, (ast.Subscript, ast.Attribute, ast.Starred)):
+                            base = base.value
+                        if isinstance(base, ast.Name):
+                            targets.add(base.id)
+            elif isinstance(s, (ast.AugAssign, ast.AnnAssign)):
+                base = s.target
+                while isinstance(base, (ast.Subscript, ast.Attribute)):
+                    base = base.value
+                if isinstance(base, ast.Name):
+                    targets.add(base.id)
+            elif isinstance(s, ast.Return):
+                targets |= {D} if D in names_loaded(s) else set()
+            if targets & flow:
+                ck.bad(rule, mod, s, q, u(s)[:200],
+                       '`%s` produces %s values and flows into the running-minimum distance state (`%s`): the distances the '
+                       'metric returns (double precision for the built-in metrics and for callables) are rounded to the '
+                       'narrower type before the argmax that picks the next centre and the maximum that is compared with the '
+                       'cutoff. Two candidates closer than that resolution become a tie (the lower index wins although the '
+                       'other frame is strictly farther) and a radius slightly above the cutoff is rounded onto it (the loop '
+                       'stops one centre early)' % (u(c)[:100], u(dt), '`, `'.join(sorted(targets & flow))))
+            else:
+                ck.missing(rule, '%s: `%s` converts to %s; whether the value reaches the running-minimum distances `%s` is '
+                           'not established' % (q, u(s)[:100], u(dt), D))
+        if not casts:
+            ck.ok(rule, mod, fn, '%s: no conversion to a float type narrower than double' % q,
+                  'the running minimum, the candidate distances and the radius keep the precision of the metric')
+    ck.floor(rule, n, 3, 'functions holding the running-minimum distance state')
 
 
 # ---------------------------------------------------------------------------
@@ -1002,6 +1174,133 @@ def _mpi_facts(fi, site, MPI):
     return res
 
 
+def derived_names(fi, scope):
+    """Local names whose value is, at every one of their definitions, a pure
+    numpy/builtin function of the names in `scope` and of names derived that
+    way (`prev = maxdist`, `gap = prev - maxdist`): they carry no information
+    beyond (earlier values of) the names in scope."""
+    from ..cfg import stmt_defs
+    sites = {}
+    for s in fi.cfg.nodes:
+        if s in (ENTRY, EXIT) or isinstance(s, Assume):
+            continue
+        for nm in stmt_defs(s):
+            sites.setdefault(nm, []).append(s)
+    P = set(params(fi.fn))
+    out = set()
+    changed = True
+    while changed:
+        changed = False
+        for nm, ss in sites.items():
+            if nm in out or nm in scope or nm in P:
+                continue
+            ok = True
+            for s in ss:
+                v = fi.def_value(s, nm) if isinstance(s, (ast.Assign, ast.AnnAssign)) else None
+                if v is None or classify(v, ['__never__'], scope=set(scope) | out)[0] != 'near':
+                    ok = False
+                    break
+            if ok:
+                out.add(nm)
+                changed = True
+    return out
+
+
+def _criterion_met(fi, f, K, md):
+    """The fact says that one of the two stopping criteria is met: the count
+    has reached n_clusters (`n_clusters <= len(L)`, `len(L) == n_clusters`) or
+    the radius is no longer above the cutoff (`radius <= dist_cutoff`, with
+    the radius the guard's variable or the maximum of the distance array)."""
+    if not isinstance(f, Cmp):
+        return False
+    NC, DC, L, D = K['NC'], K['DC'], K['L'], K['D']
+    cnt = C('len(%s)' % L)
+
+    def is_radius(e):
+        if isinstance(e, ast.Name) and e.id == md:
+            return True
+        v, _, _, kind = _radius_value(fi, e, K)
+        return v[0] == 'match' and kind is not None
+    if f.op is ast.Eq:
+        return {ctext(f.lhs), ctext(f.rhs)} == {cnt, NC}
+    less = f.as_less()
+    if less is None:
+        return False
+    small, strict, big = less
+    if ctext(small) == NC and ctext(big) == cnt:
+        return True
+    if ctext(big) == DC and is_radius(small):
+        return True
+    return False
+
+
+def _d2_exits(ck, rule, mod, K, exits, md):
+    """Every way out of the main loop other than its guard (a `break` /
+    `return` that belongs to no guard clause in front of the iteration call)
+    must be one the property allows: taken only when a stopping criterion is
+    met.  An exit whose condition is some other function of the stopping
+    state (counts, radius, cutoffs, values derived from them) is a different
+    stopping rule -> VIOLATION; a condition over anything else is not
+    related to the stopping rule by this analysis -> incomplete, never
+    silently accepted.  A return of kcenters that does not come out of the
+    main loop is a result the farthest-point iteration did not produce."""
+    fn, fi, w = K['fn'], K['fi'], K['loop']
+    scope = {K['NC'], K['DC'], K['L'], K['D']} | ({md} if md else set())
+    scope |= derived_names(fi, scope)
+    for s in exits:
+        conds = []
+        for a in fi.cfg.nodes:
+            if isinstance(a, Assume) and a.owner is not w and _inside(mod, a.owner, w) and fi.cfg.dominates(a, s):
+                test = fi.expand(a.test)
+                cs = conjuncts(test, a.polarity)
+                conds.append((a, test, cs))
+        kind = 'break' if isinstance(s, ast.Break) else 'return'
+        if not conds:
+            if not _conditional_in_loop(mod, s, w):
+                ck.bad(rule, mod, s, 'kcenters', 'unconditional %s in the main loop' % kind,
+                       'the main loop is left unconditionally at %s: it stops although neither the requested number of '
+                       'centres is reached nor the radius is at the cutoff' % mod.loc(s))
+            else:
+                ck.missing(rule, 'condition under which the %s at %s leaves the main loop' % (kind, mod.loc(s)))
+            continue
+        facts = [f for _, _, cs in conds if cs is not None for f in cs]
+        if any(_criterion_met(fi, f, K, md) for f in facts):
+            ck.ok(rule, mod, s, '%s when %s' % (kind, ' and '.join(
+                str(f) if isinstance(f, Cmp) else u(f[1])[:60] for f in facts)[:160]),
+                'extra exit taken only when a stopping criterion is met')
+            continue
+        shown = ' and '.join(('' if a.polarity else 'not ') + '(%s)' % u(t)[:100] for a, t, _ in conds)
+        exprs = [t for _, t, _ in conds]
+        closed = all(classify(t, ['__never__'], scope=scope)[0] == 'near' for t in exprs)
+        about = any(names_loaded(t) & scope for t in exprs)
+        if closed and about:
+            ck.bad(rule, mod, s, 'kcenters', '%s when %s' % (kind, shown[:200]),
+                   'the main loop has an additional way out (%s at %s) whose condition `%s` is neither `len(%s) >= %s` nor '
+                   '`radius <= %s`: k-centers must stop exactly when the requested number of centres is reached or the '
+                   'covering radius is no longer above the cutoff; with this exit it also stops when neither holds (fewer '
+                   'centres than requested, radius still above the cutoff)' % (
+                       kind, mod.loc(s), shown[:200], K['L'], K['NC'], K['DC']))
+        else:
+            ck.missing(rule, 'the %s at %s leaves the main loop under `%s`, which the rule cannot relate to the two '
+                       'stopping criteria' % (kind, mod.loc(s), shown[:160]))
+    for r in returns_of(fn):
+        if _inside(mod, r, w):
+            continue
+        if not fi.cfg.dominates(w, r):
+            ck.missing(rule, 'the return at %s does not come out of the main loop (a result path that bypasses the '
+                       'farthest-point iteration)' % mod.loc(r))
+
+
+def _conditional_in_loop(mod, s, w):
+    """`s` sits under an if / try / inner loop inside `w`."""
+    p = mod.parent.get(s)
+    while p is not None and p is not w:
+        if isinstance(p, (ast.If, ast.Try, ast.For, ast.While, ast.With)):
+            return True
+        p = mod.parent.get(p)
+    return False
+
+
 def d2_guard(ck):
     rule = 'C02.D2.guard'
     mod = ck.repo.mod(KC)
@@ -1059,6 +1358,8 @@ def d2_guard(ck):
                       'extra conjunct `%s` in the loop guard: the loop must stop exactly when the requested number '
                       'of centres is reached or the radius is no longer above the cutoff' % (
                           e if isinstance(e, Cmp) else u(ex)))
+    _d2_exits(ck, rule + '.exit', mod, K, exits,
+              dist_ok[1].id if dist_ok and isinstance(dist_ok[1], ast.Name) else None)
     # a criterion that is not tested on the way to the iteration call: a
     # violation if the guard is the only way out of the loop, else the test
     # may sit at another exit (rotated loop) - not modelled
@@ -1286,6 +1587,63 @@ def _outer_defs(fi, mod, w, name):
     return [d for d in fi.rd.defs_at(w, name) if d not in ('PARAM', 'UNBOUND') and not _inside(mod, d, w)]
 
 
+def _entry_value(fi, mod, w, site, name):
+    """An expression for the value the list `name`, bound at `site`, has when
+    the loop `w` is entered coming from that binding: the bound expression if
+    nothing mutates the object on the way; `[E for T in IT]` if the binding
+    is an empty list and the one mutation on the way is the unconditional
+    `name.append(E)` of a `for T in IT:` loop that every path from the binding
+    to `w` runs through exactly once (the loop-built spelling of a
+    comprehension - FuncInfo.temp_value reads it that way only when NO other
+    append exists in the function; here later appends, inside `w`, are
+    irrelevant).  None if the growth on the way is not modelled."""
+    from ..cfg import stmt_defs
+    v = fi.def_value(site, name)
+    if v is None:
+        return None
+    on_way = [m for m in fi._mutated_in_place(name) if m is not site and not _inside(mod, m, w)
+              and fi.cfg.reachable(site, m, avoiding=[w]) and fi.cfg.reachable(m, w)
+              and site in fi.rd.defs_at(m, name)]
+    if not on_way:
+        return v
+    empty = (isinstance(v, ast.List) and not v.elts) or (
+        isinstance(v, ast.Call) and isinstance(v.func, ast.Name) and v.func.id == 'list' and not v.args and not v.keywords)
+    if not empty or len(on_way) != 1:
+        return None
+    st = on_way[0]
+    if not (isinstance(st, ast.Expr) and isinstance(st.value, ast.Call) and isinstance(st.value.func, ast.Attribute)
+            and st.value.func.attr == 'append' and isinstance(st.value.func.value, ast.Name)
+            and st.value.func.value.id == name and len(st.value.args) == 1 and not st.value.keywords
+            and not isinstance(st.value.args[0], ast.Starred)):
+        return None
+    lp = mod.parent.get(st)
+    if not (isinstance(lp, ast.For) and not lp.orelse and any(s is st for s in lp.body)):
+        return None
+    for x in ast.walk(lp):
+        if isinstance(x, (ast.Break, ast.Continue, ast.Return, ast.Yield, ast.YieldFrom, ast.Raise)):
+            return None
+    # run exactly once on the way: not nested in another loop, not bypassed
+    p = mod.parent.get(lp)
+    while p is not None and p is not fi.fn:
+        if isinstance(p, (ast.For, ast.While, ast.AsyncFor)):
+            return None
+        p = mod.parent.get(p)
+    if fi.cfg.reachable(site, w, avoiding=[lp]) or not fi.cfg.reachable(site, lp, avoiding=[w]):
+        return None
+    # the list is only rebound at `site`, the iterable is not changed by the body
+    tn = set(target_names(lp.target))
+    for s in lp.body:
+        for x in walk_local(s) if isinstance(s, (ast.If, ast.For, ast.While, ast.With, ast.Try)) else [s]:
+            if isinstance(x, ast.stmt) and (set(stmt_defs(x)) & (names_loaded(lp.iter) | {name})):
+                return None
+    for nm in names_loaded(lp.iter):
+        if nm in tn or any(_inside(mod, ms, lp) for ms in fi._mutated_in_place(nm)):
+            return None
+    comp = ast.ListComp(elt=st.value.args[0], generators=[ast.comprehension(
+        target=lp.target, iter=lp.iter, ifs=[], is_async=0)])
+    return ast.copy_location(comp, st)
+
+
 def d2_warm_count(ck):
     """Entering the main loop, the list whose length the guard compares with
     n_clusters (and whose length the iteration uses as the label of the new
@@ -1308,14 +1666,14 @@ def d2_warm_count(ck):
         return
     n = 0
     for sl in dL:
-        vl = fi.def_value(sl, L)
+        vl = _entry_value(fi, mod, w, sl, L)
         ll = _length_of(cx(fi.expand(vl, stop=(CEN,), strict=False))) if vl is not None else None
         mates = [sc for sc in dC if fi.cfg.reachable(sc, sl, avoiding=[w]) or fi.cfg.reachable(sl, sc, avoiding=[w])]
         if ll is None or not mates:
             ck.missing(rule, 'length of the centre-index list defined by `%s`' % u(sl)[:100])
             continue
         for sc in mates:
-            vc = fi.def_value(sc, CEN)
+            vc = _entry_value(fi, mod, w, sc, CEN)
             lc = _length_of(cx(fi.expand(vc, strict=False))) if vc is not None else None
             n += 1
             if ll == ('len', CEN) or (lc is not None and lc[0] != 'labels' and ll == lc):
@@ -1379,6 +1737,110 @@ def d3_unbound(ck):
 # ---------------------------------------------------------------------------
 # D4
 
+_N, _NN, _UNK = 'none', 'notnone', '?'
+
+
+def _null_view(st):
+    """State of the set-valued analysis as the three-valued state of
+    sa/nullness.py (for its `truth` / `refine`)."""
+    out = {}
+    for k, v in st.items():
+        out[k] = nullness.NONE if v == {_N} else nullness.NOTNONE if v == {_NN} else nullness.MAYBE
+    return out
+
+
+def _null_expr(e, st):
+    """Set of possible None-ness values of an expression: {'none'},
+    {'notnone'}, a union over the paths / arms that produce it, with '?' for
+    a value the analysis knows nothing about (an unknown call, an attribute)."""
+    if isinstance(e, ast.Name):
+        return frozenset(st.get(e.id, {_UNK}))
+    if isinstance(e, ast.IfExp):
+        t = nullness.truth(e.test, _null_view(st))
+        if t is True:
+            return _null_expr(e.body, st)
+        if t is False:
+            return _null_expr(e.orelse, st)
+        return _null_expr(e.body, st) | _null_expr(e.orelse, st)
+    v = nullness.expr_nullness(e, _null_view(st))
+    return frozenset({_N} if v == nullness.NONE else {_NN} if v == nullness.NOTNONE else {_UNK})
+
+
+def null_run(fi, initial):
+    """None-ness dataflow like nullness.run (same branch pruning, same
+    refinement by tests), but (a) the value of a name is the SET of the
+    definite values it has on the paths that reach the point plus '?' for a
+    value of unknown None-ness, so that "None on some path" (a definite
+    defect) is told from "the analysis cannot see through this" and (b) a
+    parallel assignment `a, b = x, y` is read element by element.
+    Returns IN: node -> {name: frozenset} (None = unreachable)."""
+    from ..cfg import stmt_defs
+    from ..core import target_names
+    cfg = fi.cfg
+    IN = {n: None for n in cfg.nodes}
+    OUT = {n: None for n in cfg.nodes}
+    OUT[ENTRY] = {k: frozenset({v}) if isinstance(v, str) else frozenset(v) for k, v in initial.items()}
+    work = [n for n in cfg.nodes if n != ENTRY]
+    fuel = 0
+    while work and fuel < 50000:
+        fuel += 1
+        n = work.pop(0)
+        st = None
+        for p in cfg.pred.get(n, []):
+            if OUT[p] is None:
+                continue
+            if st is None:
+                st = dict(OUT[p])
+            else:
+                for k in set(st) | set(OUT[p]):
+                    st[k] = frozenset(st.get(k, {_UNK})) | frozenset(OUT[p].get(k, {_UNK}))
+        if st is None:
+            continue
+        IN[n] = st
+        new = dict(st)
+        if isinstance(n, Assume):
+            view = _null_view(st)
+            t = nullness.truth(n.test, view)
+            if t is not None and t != n.polarity:
+                new = None
+            else:
+                after = dict(view)
+                nullness.refine(n.test, n.polarity, after)
+                for k, v in after.items():
+                    if v != view.get(k) and v in (nullness.NONE, nullness.NOTNONE):
+                        new[k] = frozenset({v})
+        elif n not in (ENTRY, EXIT):
+            if isinstance(n, ast.Assign):
+                for t in n.targets:
+                    if isinstance(t, ast.Name):
+                        new[t.id] = _null_expr(n.value, st)
+                    elif isinstance(t, (ast.Tuple, ast.List)) and isinstance(n.value, (ast.Tuple, ast.List)) \
+                            and len(t.elts) == len(n.value.elts) \
+                            and not any(isinstance(x, ast.Starred) for x in list(t.elts) + list(n.value.elts)):
+                        for te, ve in zip(t.elts, n.value.elts):
+                            if isinstance(te, ast.Name):
+                                new[te.id] = _null_expr(ve, st)     # right-hand sides are read in the OLD state
+                            else:
+                                for nm in target_names(te):
+                                    new[nm] = frozenset({_UNK})
+                    else:
+                        for nm in target_names(t):
+                            new[nm] = frozenset({_UNK})
+            elif isinstance(n, ast.AnnAssign) and n.value is not None and isinstance(n.target, ast.Name):
+                new[n.target.id] = _null_expr(n.value, st)
+            elif isinstance(n, ast.AugAssign) and isinstance(n.target, ast.Name):
+                new[n.target.id] = frozenset({_NN})
+            else:
+                for nm in stmt_defs(n):
+                    new[nm] = frozenset({_UNK}) if isinstance(n, (ast.For, ast.With)) else frozenset({_NN})
+        if new != OUT[n]:
+            OUT[n] = new
+            for s in cfg.succ.get(n, []):
+                if s not in work:
+                    work.append(s)
+    return IN
+
+
 def d4_criteria(ck):
     rule = 'C02.D4.criteria'
     mod = ck.repo.mod(KC)
@@ -1393,31 +1855,54 @@ def d4_criteria(ck):
     P = params(fn)
     NC = 'n_clusters' if 'n_clusters' in P else P[2]
     DC = 'dist_cutoff' if 'dist_cutoff' in P else P[3]
+    # the places where the criteria are compared: the loop test and the guard
+    # clauses of the loop (`while True: if not (...): break`)
+    readers = [w] + [a.owner for a in fi.cfg.nodes if isinstance(a, Assume) and a.owner is not w
+                     and _inside(mod, a.owner, w) and {NC, DC} & names_loaded(a.test)]
+    readers = list(dict.fromkeys(readers))
     for a, b in itertools.product([nullness.NONE, nullness.NOTNONE], repeat=2):
-        IN, OUT = nullness.run(fi, {NC: a, DC: b})
-        st = IN.get(w)
+        IN = null_run(fi, {NC: a, DC: b})
         desc = '%s %s, %s %s' % (NC, a, DC, b)
-        if st is None:
+        if IN.get(w) is None:
             # unreachable: must be because the function raised
             ck.ok(rule, mod, w, desc, 'rejected with an exception before the loop')
             continue
-        ok = st.get(NC) == nullness.NOTNONE and st.get(DC) == nullness.NOTNONE
-        ck.check(ok, rule, mod, w, 'kcenters', desc + ' -> guard ' + u(w.test),
+        worst, shown = 'ok', None
+        for rd in readers:
+            st = IN.get(rd)
+            if st is None:
+                continue
+            vals = [st.get(NC, frozenset({_UNK})), st.get(DC, frozenset({_UNK}))]
+            state = 'none' if any(_N in v for v in vals) else 'ok' if all(v == {_NN} for v in vals) else 'unknown'
+            if state == 'none' or (state == 'unknown' and worst == 'ok'):
+                worst = state
+                shown = (rd, vals)
+            if worst == 'none':
+                break
+        if worst == 'unknown':
+            # a criterion that comes out of something the analysis cannot see through: not decided
+            ck.missing(rule, 'None-ness of the stopping criteria at the guard for the input combination (%s): %s=%s %s=%s' % (
+                desc, NC, '/'.join(sorted(shown[1][0])), DC, '/'.join(sorted(shown[1][1]))))
+            continue
+        st = IN.get(w)
+        gshow = lambda v: 'notnone' if v == {_NN} else 'none' if v == {_N} else 'maybe'
+        vals = shown[1] if shown else [st.get(NC), st.get(DC)]
+        ck.check(worst == 'ok', rule, mod, w, 'kcenters', desc + ' -> guard ' + u(w.test),
                  'both criteria are numbers at the guard',
                  'for the input combination (%s) the loop guard compares with None '
                  '(state at guard: n_clusters=%s dist_cutoff=%s): TypeError instead '
-                 'of using the remaining criterion' % (desc, st.get(NC), st.get(DC)))
+                 'of using the remaining criterion' % (desc, gshow(vals[0]), gshow(vals[1])))
     # the value substituted for a missing criterion must be its neutral
     # element: +inf for the count, 0 for the radius.  A "substitution" is an
     # assignment to the criterion that is reached with the criterion None.
     for name, want, forms in ((NC, 'np.inf', INF_FORMS), (DC, '0', ['0', '0.0', '-0.0'])):
-        IN, OUT = nullness.run(fi, {name: nullness.NONE})
+        IN = null_run(fi, {name: nullness.NONE})
         for s in fi.cfg.nodes:
             if not isinstance(s, (ast.Assign, ast.AnnAssign)) or _inside(mod, s, w):
                 continue
             v = fi.def_value(s, name)
             st = IN.get(s)
-            if v is None or st is None or st.get(name) != nullness.NONE:
+            if v is None or st is None or st.get(name) != {_N}:
                 continue
             # the substitute is judged as a function of the inputs of kcenters:
             # anything computed purely from them (a constant, `len(traj)`, ...)
@@ -1834,7 +2319,7 @@ def _d5_centre_source(ck, rule, mod, sources):
         # frames stand in for the centres: every definition of the centre list that reaches the loop must
         # consist of exactly those frames
         for sc in _outer_defs(fi, mod, w, CEN):
-            vc = fi.def_value(sc, CEN)
+            vc = _entry_value(fi, mod, w, sc, CEN)
             x = cx(fi.expand(vc, strict=False)) if vc is not None else None
             if x is None:
                 ck.missing(rule, 'definition `%s` of the centre list' % u(sc)[:100])
@@ -2003,6 +2488,7 @@ def d5_sole_writer(ck):
 
 def check(ck):
     d1_farthest(ck)
+    d1_precision(ck)
     d2_guard(ck)
     d2_warm_count(ck)
     d3_unbound(ck)
